@@ -9,6 +9,10 @@
 #include <inttypes.h>
 #include "qlibc.h"
 #include "vfc.h"
+/* the print helpers (debug()) run on real contents now and then: C11 covers what they read */
+static FILE *DEVNULL; static unsigned long DBGCTR;
+#define DEBUG_NOW() (((++DBGCTR) % 61) == 0 && (DEVNULL || (DEVNULL = fopen("/dev/null", "w"))))
+
 
 static rng_t R;
 static int P;
@@ -52,7 +56,11 @@ static size_t gen_value(int kind) {
 }
 
 /* full comparison of a qlist with the model through public links and API */
+
+/* optional out-parameters are NULL in one call out of four; the variable is preset to what the callee would have stored */
+static size_t *optout(size_t *p, size_t expect) { if (rng_chance(&R, 1, 4)) { *p = expect; vf_count("calls_with_null_out_parameter", 1); return NULL; } return p; }
 static void list_check(qlist_t *L) {
+    if (DEBUG_NOW()) { L->debug(L, DEVNULL); vf_count("debug_prints", 1); }
     vf_count("state_compares", 1);
     if (L->size(L) != (size_t)MN) { judge("C09", "size", "size()=%zu model=%d", L->size(L), MN); return; }
     if (L->datasize(L) != m_sum()) { judge("C09", "datasize", "datasize()=%zu model=%zu", L->datasize(L), m_sum()); return; }
@@ -110,8 +118,9 @@ static void l_get(qlist_t *L, int how, int index, int act) {   /* act 0 get 1 po
     static const char *AN[] = {"get", "pop", "remove"}; static const char *HN[] = {"first", "last", "at"};
     vf_log("%s%s(%d) newmem=%d n=%d", AN[act], HN[how], index, newmem, MN);
     errno = 0;
-    if (act == 0) d = how == 0 ? L->getfirst(L, &sz, newmem) : how == 1 ? L->getlast(L, &sz, newmem) : L->getat(L, index, &sz, newmem);
-    else if (act == 1) d = how == 0 ? L->popfirst(L, &sz) : how == 1 ? L->poplast(L, &sz) : L->popat(L, index, &sz);
+    size_t *szp = optout(&sz, ok ? M[pos].n : sz);
+    if (act == 0) d = how == 0 ? L->getfirst(L, szp, newmem) : how == 1 ? L->getlast(L, szp, newmem) : L->getat(L, index, szp, newmem);
+    else if (act == 1) d = how == 0 ? L->popfirst(L, szp) : how == 1 ? L->poplast(L, szp) : L->popat(L, index, szp);
     else rb = how == 0 ? L->removefirst(L) : how == 1 ? L->removelast(L) : L->removeat(L, index);
     int e = errno;
     bool got = act == 2 ? rb : d != NULL;
